@@ -18,6 +18,10 @@ RULE = ("nodesdrive: histories of 36 blocks on the real app (8 node keys, 4 outp
 
 
 def run(ctx):
+    import importlib.util, os as _os
+    _sp = importlib.util.spec_from_file_location("_writers", _os.path.join(_os.path.dirname(__file__), "_writers.py"))
+    _w = importlib.util.module_from_spec(_sp); _sp.loader.exec_module(_w)
+    _w.run(ctx, ['x/nodes/keeper', 'x/nodes'])
     ctx.lean_proofs("Props.C19")
     ctx.rule(RULE)
     ctx.trust("x/auth bank keeper (SendCoins/MintCoins/BurnCoins) is modelled as exact integer transfers",
